@@ -519,7 +519,7 @@ META = {
     'required_covers': ['failed-operand-processed-at-construction', 'nontrivial', 'met-at-construction', 'partial-value', 'failed-before-met', 'late-failure-crash',
                         'mixed-refused', 'empty', 'shared-operand', 'mix-then-failure'],
     'bounds': {'quick': '20 condition trees (AllOf, AnyOf, &, |; depth <= 2, <= 3 leaves) over timeouts, shared events succeeded or '
-                        'failed by helpers, child processes, one event in several operand slots; construction instant, completion instants and values symbolic',
+                        'failed by helpers, child processes, one event in several operand slots; construction instant, completion instants and values symbolic; handled failing operands (processed before construction); one event in several slots; probe-free polling mode; refused mix followed by a handled failure',
                'thorough': 'these plus 25 fixed and 40 seed-generated trees, depth <= 3, <= 5 operand slots'},
     'assumptions': ['operands already processed at construction are counted in operand order',
                     'the per-node oracle reads the order in which the kernel processed the node\'s direct operands'],
